@@ -231,6 +231,22 @@ def _vec_case(rng, spec, tables):
     strings = sorted({k for tb in tables.values() for k in tb} | {"Normal", "LOGNORMAL", "Log-Normal", "weibull", ""})
     n = int(rng.choice([0, 1, 2, 3, 5, 8, 13]))
     inp = {}
+    if any(t == "m" for _, t in spec["params"]):      # rows x columns with one weight per row (hvsr_spatial._statistics)
+        rows, cols = int(rng.choice([1, 1, 2, 3, 5])), int(rng.choice([1, 2, 3, 6]))
+        for p, t in spec["params"]:
+            if t == "m":
+                inp[p] = [[float(x) for x in rng.normal(rng.uniform(-3, 3), rng.uniform(0.1, 2), cols)] for _ in range(rows)]
+            elif t == "v":
+                u = rng.random()
+                w = rng.uniform(0.1, 2, rows)
+                if u < 0.1:
+                    w[:] = 0.0
+                elif u < 0.2 and rows >= 2:
+                    w[:] = 0.0; w[0], w[1] = 1.0, -1.0
+                elif u < 0.3:
+                    w[1:] = 0.0
+                inp[p] = [float(x) for x in w]
+        return inp
     for p, t in spec["params"]:
         if t == "str" and p == "denominator":
             inp[p] = str(rng.choice(["nist", "cheng", "cheng", "nist", "other"]))
@@ -266,6 +282,10 @@ def _vec_line(spec, tables, inp):
             toks += [str(len(v))] + ["none" if x != x else hexf(x) for x in v]
         elif t == "b":
             toks += [str(len(v))] + ["1" if x else "0" for x in v]
+        elif t == "m":
+            toks += [str(len(v))]
+            for row in v:
+                toks += [str(len(row))] + ["none" if x != x else hexf(x) for x in row]
         elif t == "ov":
             toks += ["None"] if v is None else [str(len(v))] + ["none" if x != x else hexf(x) for x in v]
     return f"pyvec.{spec['name']} " + " ".join(toks)
@@ -279,7 +299,7 @@ def _vec_python(module, spec, inp):
         obj = object.__new__(cls)
     for p, t in spec["params"]:
         v = inp[p]
-        val = (None if v is None else np.array(v, dtype=float)) if t in ("v", "ov") else (np.array(v, dtype=bool) if t == "b" else v)
+        val = (None if v is None else np.array(v, dtype=float)) if t in ("v", "ov", "m") else (np.array(v, dtype=bool) if t == "b" else v)
         if p.startswith("self."):
             setattr(obj, p[5:], val)
         else:
@@ -292,12 +312,26 @@ def _vec_python(module, spec, inp):
                 r = getattr(obj, spec["func"])(**kwargs) if obj is not None else getattr(module, spec["func"])(**kwargs)
     except Exception as e:
         return ("raise", type(e).__name__)
+    if isinstance(r, tuple):
+        return ("pair", [float(x) for x in r])
     r = float(r)
     return ("val", r) if math.isfinite(r) else ("nan", r)
 
 
 def _vec_agree(py, line, scale):
     t = line.split()
+    if t and t[0] == "pair":
+        if py[0] != "pair" or len(py[1]) != len(t) - 1:
+            return False
+        for a, tok in zip(py[1], t[1:]):
+            b = None if tok == "none" else unhex(tok)
+            if b is not None and not math.isfinite(b):
+                b = None
+            if (b is None) != (not math.isfinite(a)):
+                return False
+            if b is not None and abs(a - b) > 1e-9 * max(abs(a), abs(b)) + 1e-12 * scale:
+                return False
+        return True
     if not t or t[0] not in ("raise", "nan", "val"):
         return False
     kind, val = t[0], (unhex(t[1]) if t[0] == "val" else None)
@@ -308,7 +342,7 @@ def _vec_agree(py, line, scale):
     return kind != "val" or abs(py[1] - val) <= 1e-9 * max(abs(py[1]), abs(val)) + 1e-12 * scale
 
 
-def validate_vec(ctx, rng, names=None):
+def validate_vec(ctx, rng, names=None, vgroups=None):
     """the array functions translated by tools/py2lean_vec.py: the REAL function (CPython) and the generated definition (Float) on the same arrays"""
     import py2lean_vec
     note = ctx.supporting.setdefault("translator_validation", {})
@@ -322,6 +356,8 @@ def validate_vec(ctx, rng, names=None):
         name = spec["name"]
         if names is not None and name not in names:
             continue
+        if vgroups is not None and spec.get("vgroup", "Vec") not in vgroups:
+            continue
         if st.get("pyvec:" + name) != "translated":
             continue
         module = importlib.import_module(spec["file"][:-3].replace("/", "."))
@@ -333,7 +369,7 @@ def validate_vec(ctx, rng, names=None):
         kinds = {}
         for inp, line in zip(cases, outs):
             py = _vec_python(module, spec, inp)
-            scale = max([1.0] + [abs(x) for v in inp.values() if isinstance(v, list) for x in v if x == x])
+            scale = max([1.0] + [abs(x) for v in inp.values() if isinstance(v, list) for x in (v if not (v and isinstance(v[0], list)) else [y for r_ in v for y in r_]) if x == x])
             if _vec_agree(py, line, scale):
                 agree += 1
                 kinds[py[0]] = kinds.get(py[0], 0) + 1
